@@ -114,10 +114,12 @@ fn decode_inner(buf: &mut BytesMut) -> Result<Option<(RequestId, (Tag, Vec<Contr
         .and_then(|t| t.match_class(TagClass::Universal))
         .and_then(|t| t.match_id(Types::Integer as u64))
         .and_then(|t| t.expect_primitive())
+        // MessageID ::= INTEGER (0 .. maxInt): only a non-negative value of at most eight
+        // octets is read exactly by parse_uint(); anything else, or a wider value, must not
+        // be mistaken for the ID of some other, outstanding operation
+        .filter(|octets| octets.len() <= 8 && octets.first().map_or(false, |b| b & 0x80 == 0))
     {
         Some(msgid) => match parse_uint(msgid.as_slice()) {
-            // MessageID ::= INTEGER (0 .. maxInt): a wider value must not be truncated into
-            // the ID of some other, outstanding operation
             Ok((_, id)) if id <= i32::MAX as u64 => id as i32,
             _ => return Err(decoding_error),
         },
